@@ -525,6 +525,8 @@ func c01Pairs(c *Ctx, do func(c01Case) bool) {
 		{lz("08", 8)}, {lz("007", 7)}, {lz("00", 0)}, {tLit(vFloat(1.5))}, {tOp("-"), tLit(vFloat(1.5))}, {tLit(vFloat(10))}, {tLit(vStr("10"))},
 		{tLit(vFloat(0.1)), tOp("+"), tLit(vFloat(0.2))}, {tLit(vFloat(0.5)), tOp("-"), tLit(vFloat(0.5))}, {tLit(vInt(2)), tOp("*"), lz("0100", 100), tOp("-"), lz("017", 17)},
 		{tLit(vStr(""))}, {tLit(vBool(false))}, {tLit(vNil())}, {tID("i")}, {tID("i"), tOp("++")}, {tID("f"), tOp("--")}, {tID("f")},
+		{tLit(vInt(1)), tOp("+"), tLit(vInt(1))}, {tLit(vStr("1")), tOp("+"), tLit(vStr("1"))}, {tLit(vInt(10)), tOp("-"), tLit(vInt(3))}, {tLit(vStr("10")), tOp("+"), tLit(vStr("3"))},
+		{tLit(vStr("1.5"))}, {tLit(vFloat(1.5)), tOp("+"), tLit(vFloat(1.5))}, {tLit(vStr("1.5")), tOp("+"), tLit(vStr("1.5"))}, {tLit(vStr("true"))}, {tLit(vStr("nil"))}, {tLit(vStr("i"))},
 		{tLit(vInt(1)), tOp("=="), tLit(vInt(1))}, {tLit(vFloat(3)), tOp("*"), tLit(vFloat(0))}, {tOp("-"), tLit(vFloat(3)), tOp("*"), tLit(vFloat(0))},
 	}
 	vars := map[string]Val{"z": vFloat(0), "nz": vFloat(math.Copysign(0, -1)), "i": vInt(10), "f": vFloat(2.5)}
